@@ -56,11 +56,24 @@ class TermDom:
     def const(self, q): return self.mk("const", Fraction(q))
     def symbol(self, n): return self.mk("sym", n)
     def add(self, a, b): return self.mk("add", a, b)
-    def sub(self, a, b): return self.mk("sub", a, b)
+    def sub(self, a, b):
+        # x - (+0) is x bit-for-bit in IEEE arithmetic for every x (incl. -0, inf, NaN): the only law applied
+        if self.nodes[b] == ("const", Fraction(0)): return a
+        return self.mk("sub", a, b)
     def mul(self, a, b): return self.mk("mul", a, b)
     def div(self, a, b): return self.mk("div", a, b)
     def neg(self, a): return self.mk("neg", a)
-    def narrow(self, a): return self.mk("f32", a)
+    def narrow(self, a):
+        t = self.nodes[a]
+        if t[0] == "const":
+            import struct
+            q = t[1]
+            try:
+                f = struct.unpack("f", struct.pack("f", float(q)))[0]
+                if Fraction(f) == q: return a          # exactly representable in binary32: the conversion is the identity
+            except OverflowError: pass
+        if t[0] == "f32": return a
+        return self.mk("f32", a)
     def leaves(self, i, acc=None, seen=None):
         acc = set() if acc is None else acc; seen = set() if seen is None else seen
         stack = [i]
@@ -148,8 +161,7 @@ class Interp:
         return v
     # ---- environment
     def lookup(self, name):
-        fr = self.frames[-1]
-        if name in fr: return fr[name]
+        if self.frames and name in self.frames[-1]: return self.frames[-1][name]
         if name in self.globals: return self.globals[name]
         raise ExecError("unknown symbol " + name)
     def set_global(self, name, value):
@@ -259,7 +271,10 @@ class Interp:
         if b == "pointer":
             if isinstance(v, Ptr): return v
             if isinstance(v, int) and v == 0: return NULL
-        if b == "vector" and isinstance(v, tuple): return v
+        if b == "vector":
+            if isinstance(v, tuple): return v
+            n = self.cells(tto)
+            return (self.cast(v, tfrom, tto["sub"][0]),) * n       # scalar -> vector broadcast
         if b == "empty": return None
         raise ExecError("unsupported cast %s -> %s of %r" % (a, b, v))
     def fop(self, op, x, y):
